@@ -70,6 +70,12 @@ def initial_cases(tier, seed):
         pts.append(dict(base, fam=fam, plan=plan, interp=interp))
     for fam, level, rm in itertools.product(dims["fam"], dims["level"], dims["rho_mult"]):
         pts.append(dict(base, fam=fam, level=level, rho_mult=rm))
+    # plan type x exponent ladder x prefactor: with rho_mult = 'expnt' the convolved function contains the exponent, which the
+    # spline plans also turn into a table index (two uses of one quantity that coincide for the Gaussian plan)
+    for fam, plan, formula, rm in itertools.product(dims["fam"], dims["plan"], dims["formula"], dims["rho_mult"]):
+        if quick and formula == "default" and plan == "gaussian":
+            continue
+        pts.append(dict(base, fam=fam, plan=plan, formula=formula, rho_mult=rm))
     # the spin-polarised path at every level / prefactor (the exponent functions have separate nspin branches per level)
     for fam, level, rm in itertools.product(["VIJ-all", "VK"], dims["level"], dims["rho_mult"]):
         pts.append(dict(base, fam=fam, level=level, rho_mult=rm, nspin=2))
